@@ -118,6 +118,8 @@ type FuncCtx struct {
 	specEnv  map[string]*Val
 	unfoldFacts []string
 	paramList []paramInfo
+	keySorts map[string]string
+	noMerge  bool
 }
 
 type State struct {
@@ -370,6 +372,7 @@ func (c *FuncCtx) heapArr(st *State, sname, field string, ft types.Type) string 
 	// that all paths and old() share it.
 	name := fmt.Sprintf("H_%s_%s", sname, field)
 	c.declOnce(name, fmt.Sprintf("(Array Int %s)", c.eng.sortOf(ft)))
+	c.noteKeySort(k, fmt.Sprintf("(Array Int %s)", c.eng.sortOf(ft)))
 	st.heap[k] = name
 	return name
 }
@@ -422,6 +425,12 @@ func (e *Engine) typeFacts(term string, t types.Type) string {
 		}
 	case *types.Signature:
 		return app("<=", "0", term)
+	case *types.Interface:
+		if e.sortOf(t) != "Iface" {
+			return tTrue
+		}
+		// the nil interface value is unique
+		return mkImplies(mkEq(app("tag_Iface", term), "0"), mkEq(app("ref_Iface", term), "0"))
 	}
 	return tTrue
 }
@@ -538,4 +547,11 @@ func (e *Engine) declareUF(name, decl string) {
 	}
 	e.ufs[name] = decl
 	e.ufOrder = append(e.ufOrder, name)
+}
+
+func (c *FuncCtx) noteKeySort(k, sort string) {
+	if c.keySorts == nil {
+		c.keySorts = map[string]string{}
+	}
+	c.keySorts[k] = sort
 }
